@@ -267,6 +267,11 @@ def cmd_replay(args):
         print(f"  reproduced: invariant={out['violation']['invariant']} trace_digest_equal={same_digest}")
         print(f"  detail: {out['violation']['detail'][:1000]}")
         return EXIT_VIOLATION
+    if out.get("known_hits"):
+        # the replay belongs to a finding recorded in known_findings.json: the run continues past it, as in a check
+        for fid in sorted(out["known_hits"]):
+            print(f"KNOWN-FINDING: property={prop} {fid} reproduced by replay={args.replay}")
+        return EXIT_OK
     print(f"NOT-REPRODUCED property={prop} replay={args.replay} got={out.get('violation')}")
     return EXIT_NOREPRO
 
